@@ -61,7 +61,7 @@ def clone_field_completeness():
     c.ok("stage:Stage.__init__:classification", detail="%d attributes classified" % len(created))
 
 
-def union_check(inst, master, parts, master_rows, master_obj):
+def union_check(inst, master, parts, master_rows, master_obj, grids=False):
     """parts: list of (spec bound to its stage object, method)"""
     c = ctx()
     master._transcribed
@@ -80,7 +80,35 @@ def union_check(inst, master, parts, master_rows, master_obj):
         for j in range(r.numel()):
             expected.append((kind, r.e[j], ("master",) + tag + (j,)))
     before = len(c.obligations)
-    nlp.match_rows("%s|stage:Stage._transcribe_recurse:ensures:disjoint-union" % inst, emitted, expected)
+    name = "%s|stage:Stage._transcribe_recurse:ensures:disjoint-union" % inst
+    if not grids:
+        nlp.match_rows(name, emitted, expected)
+    else:
+        # stages whose time grid has its own variables: rows made of ONE stage's time symbols only are that stage's
+        # grid-coupling rows; they must be equivalent to that stage's declared partition (as in the single-stage checks)
+        import z3
+        from . import bounded
+        missing, extra = nlp.match_rows(name, emitted, expected, prove_extra=False)
+        tns = []
+        for spec, meth in parts:
+            spec.opti = opti
+            tns.append(bounded.time_names(spec, meth))
+        foreign = []
+        for k, r, org in extra:
+            names = set() if ca.isnum(r) else {n for n in ca._consts(r) if n in ca._SYMS}
+            if not names or not any(names <= tn for tn in tns):
+                foreign.append((k, r, org))
+        if foreign:
+            c.obligations.append(nlp._ob(name + ":frame:nothing-else", "refuted", 0.0, "emitted rows that no declaration accounts for: " +
+                                          "; ".join("%s %s" % (k, ca._short(r)) for k, r, _ in foreign[:3])))
+        else:
+            c.obligations.append(nlp._ob(name + ":frame:nothing-else", "discharged", 0.0, "%d emitted atomic rows, %d of them grid-coupling rows" % (len(emitted), len(extra))))
+        for i, ((spec, meth), tn) in enumerate(zip(parts, tns)):
+            coupling = [e for e in emitted if not ca.isnum(e[1]) and {n for n in ca._consts(e[1]) if n in ca._SYMS} and {n for n in ca._consts(e[1]) if n in ca._SYMS} <= tn]
+            Rf = bounded.rows_formula(coupling)
+            base = "%s|sampling_method:SamplingMethod.add_coupling_constraints[stage %d]" % (inst, i)
+            c.prove(base + ":ensures:coupling-rows-imply-declared-partition", z3.Implies(Rf, bounded.grid_spec_formula(spec, meth, spec._orc)), detail="%d coupling rows" % len(coupling))
+            c.prove(base + ":frame:coupling-rows-implied-by-declared-partition", z3.Implies(bounded.grid_spec_formula(spec, meth, spec._orc, all_bounds=True), Rf))
     nlp.prove_equal("%s|direct_method:OptiWrapper.add_objective:ensures:sum-of-stage-objectives" % inst, opti._f, J)
 
 
@@ -135,6 +163,23 @@ def two_stages(methods, free_second):
     # stage-local accessors refer to that stage only
     nlp.prove_equal(inst + "|stage:Stage.value:ensures:stage-T-is-own-horizon", master.value(s2.ocp.T), ca.MX(parts[1][1].T))
     nlp.prove_equal(inst + "|stage:Stage.value:ensures:stage-t0", master.value(s2.ocp.t0), ca.MX(parts[1][1].t0))
+
+
+def generated_two_stages(i):
+    """two generated specifications (contracts/randspec.py) as the two stages of one master OCP: the NLP is the disjoint
+    union of what each stage's own oracle demands, the objective the sum"""
+    from rockit import Ocp
+    from . import randspec
+    master = Ocp()
+    s1, s2 = Spec(**randspec.make(2 * i)), Spec(**randspec.make(2 * i + 1))
+    s1.build(parent=master)
+    s2.build(parent=master)
+    master.solver("ipopt")
+    inst = "C12/R%03d-two-generated-stages[%s+%s]" % (i, s1.method, s2.method)
+    master._transcribed
+    aug = master._augmented
+    parts = [(s1.bound_to(aug._stages[0]), aug._stages[0]._method), (s2.bound_to(aug._stages[1]), aug._stages[1]._method)]
+    union_check(inst, master, parts, lambda parts: [], ca.MX(0.0), grids=True)
 
 
 def clones(method, objective_kind, ode_t=False):
@@ -206,6 +251,9 @@ def tasks(tier):
         for free in (False, True):
             inst = "C12/two-stages[%s+%s%s]" % (ms[0], ms[1], ",T2 free" if free else "")
             out.append(Task(inst, guarded(lambda ms=ms, free=free: two_stages(ms, free), inst), kind="bounded", bound=dict(stages=ms, free_T_second=free)))
+    for i in range(60 if tier == "thorough" else 20):
+        inst = "C12/R%03d-two-generated-stages" % i
+        out.append(Task(inst, guarded(lambda i=i: generated_two_stages(i), inst), kind="bounded", bound=dict(generated=[2 * i, 2 * i + 1])))
     for m in ("MS", "SS", "DC"):
         for ok, ode_t in (("mayer", False), ("sum", False), ("integral", False), ("integral-t", False), ("mayer", True)):
             inst = "C12/clones[%s,%s%s]" % (m, ok, ",time-varying-ode" if ode_t else "")
